@@ -1249,6 +1249,9 @@ func (self *LockManager) ProcessRecoverLockData(lock *Lock) {
 		}
 		return
 	}
+	if recoverData == nil {
+		recoverData = NewLockManagerDataUnsetData(false)
+	}
 
 	switch currentData.commandType {
 	case protocol.LOCK_DATA_COMMAND_TYPE_SET:
@@ -1270,6 +1273,7 @@ func (self *LockManager) ProcessRecoverLockData(lock *Lock) {
 			self.currentData = NewLockManagerDataUnsetData(false)
 		} else {
 			incrValue := recoverValue.(int64)
+			currentData = self.currentData
 			if currentData.GetData() != nil {
 				incrValue = currentData.GetIncrValue() - incrValue
 				valueOffset := currentData.GetValueOffset()
@@ -1280,6 +1284,7 @@ func (self *LockManager) ProcessRecoverLockData(lock *Lock) {
 				} else {
 					dataLen := currentData.GetValueOffset() + 4
 					data := make([]byte, dataLen+4)
+					data[0], data[1], data[2], data[3] = byte(dataLen), byte(dataLen>>8), byte(dataLen>>16), byte(dataLen>>24)
 					data[4], data[5] = protocol.LOCK_DATA_COMMAND_TYPE_SET, currentData.data[5]|protocol.LOCK_DATA_FLAG_VALUE_TYPE_NUMBER
 					copy(data[6:], currentData.data[6:])
 					data[valueOffset], data[valueOffset+1], data[valueOffset+2], data[valueOffset+3], data[valueOffset+4], data[valueOffset+5], data[valueOffset+6], data[valueOffset+7] = byte(incrValue), byte(incrValue>>8), byte(incrValue>>16), byte(incrValue>>24), byte(incrValue>>32), byte(incrValue>>40), byte(incrValue>>48), byte(incrValue>>56)
@@ -1296,6 +1301,7 @@ func (self *LockManager) ProcessRecoverLockData(lock *Lock) {
 			self.currentData = NewLockManagerDataUnsetData(false)
 		} else {
 			posValue := recoverValue.(uint64)
+			currentData = self.currentData
 			indexValue, lenValue := int(uint32(posValue>>32)), int(uint32(posValue))
 			if len(currentData.data) >= indexValue+lenValue {
 				dataLen, valueOffset := len(currentData.data)-4-lenValue, currentData.GetValueOffset()
@@ -1315,6 +1321,7 @@ func (self *LockManager) ProcessRecoverLockData(lock *Lock) {
 			self.currentData = NewLockManagerDataUnsetData(false)
 		} else {
 			shiftData := recoverValue.([]byte)
+			currentData = self.currentData
 			dataLen, valueOffset := len(shiftData)+len(currentData.data)-4, currentData.GetValueOffset()
 			data := make([]byte, dataLen+4)
 			data[0], data[1], data[2], data[3] = byte(dataLen), byte(dataLen>>8), byte(dataLen>>16), byte(dataLen>>24)
